@@ -29,6 +29,10 @@ def engine(res, spec, tier, seed, extended=False):
             d = dict(r['off_shift_dispatch'][0], scenario=os.path.basename(os.path.dirname(sc)), count=len(r['off_shift_dispatch']))
             res.add_found('off_shift_driver_dispatched_in_step', d, {'engine': 'eng_c20', 'scenario': sc, 'steps': steps, 'seed': seed,
                                                                       'kind': 'off_shift_driver_dispatched_in_step', 'detail': d})
+        if r.get('availability_vs_clock') and not [f for f in res.found if f['kind'] == 'availability_differs_from_shift_clock']:
+            d = dict(r['availability_vs_clock'][0], scenario=os.path.basename(os.path.dirname(sc)))
+            res.add_found('availability_differs_from_shift_clock', d, {'engine': 'eng_c20', 'scenario': sc, 'steps': steps, 'seed': seed,
+                                                                        'kind': 'availability_differs_from_shift_clock', 'detail': d})
     res.notes['eng_c20'] = {'scenarios': n_sc, 'steps': steps, 'human_drivers': humans, 'wall_s': round(time.time() - t0, 1)}
 
 def replayer(payload):
@@ -42,6 +46,6 @@ def replayer(payload):
     _, _, r, err = eng_c01.run_one((sc, 0, payload['steps'], []))
     if err:
         print(err); return None
-    for x in r['off_shift_dispatch'][:3]:
+    for x in (r['off_shift_dispatch'] + r.get('availability_vs_clock', []))[:3]:
         print('reproduced:', json.dumps(x))
-    return bool(r['off_shift_dispatch'])
+    return bool(r['off_shift_dispatch'] or r.get('availability_vs_clock'))
